@@ -32,7 +32,7 @@ def run_shard(spec):
             for n in names:
                 lines.append('    printf("Z %s %%d %%zu\\n", int(prophy::generated::%s::encoded_byte_size), sizeof(::%s));'
                              % (n, n, n))
-                if w.tinfo(n)[2] == S.FIXED_S:
+                if True:
                     # a default-constructed object of a fixed type (optionals absent, first arms) must encode to that size
                     # (pointer overload into a buffer with plenty of room: an encoder that writes too much must show as a
                     # number, not as a heap overrun that may or may not crash an uninstrumented program)
@@ -64,10 +64,11 @@ def run_shard(spec):
             elif len(a) == 4 and a[0] == 'E':
                 enc[a[1]] = (int(a[2]), int(a[3]))
         from .c04 import layout_sig, KINDNAME
+        from .. import apimodel
         died_at = None
         if p.returncode != 0:
             # the printer died: in the encode of the first fixed type that has no 'E' line
-            missing = [n for n in names if n in got and w.tinfo(n)[2] == S.FIXED_S and n not in enc]
+            missing = [n for n in names if n in got and n not in enc]
             died_at = missing[0] if missing else None
             if died_at:
                 sub = sch.closure(died_at)
@@ -110,4 +111,20 @@ def run_shard(spec):
                                   witness(encode_size=enc[n][0], get_byte_size=enc[n][1]))
                 else:
                     acc.count('cpp_fixed_encodings_measured')
+            elif stiff != S.FIXED_S and n in enc:
+                # the end padding prophyc emits for a dynamic struct shows in the simplest message of the type: a
+                # default-constructed object (arrays empty, optionals absent, first arms) has the reference length
+                try:
+                    ref_len = len(w.encode(n, apimodel.default_of(sch, n), '<')[0])
+                except Exception:  # noqa
+                    ref_len = None
+                if ref_len is None:
+                    acc.count('default_objects_without_a_reference_encoding')
+                elif CC.reaches_misaligned_optional(sch, w, n):
+                    acc.count('known_finding_types_not_judged')
+                elif enc[n] != (ref_len, ref_len):
+                    acc.violation(PROP, 'cpp-default-object-of-a-non-fixed-type-has-another-length',
+                                  witness(encode_size=enc[n][0], get_byte_size=enc[n][1], reference_length=ref_len))
+                else:
+                    acc.count('cpp_non_fixed_default_encodings_measured')
     return acc.done()
